@@ -74,6 +74,32 @@ type Plain struct {
 	C *int `json:"c,omitempty"`
 }
 
+// Embedded POINTERS to structs: the embedded struct is allocated when the document names one of its members
+// (whatever the member's value, null included); CaseIn has members whose keys differ only in case, one of them
+// all lower-case, reached through a pointer and by value.
+type EmbIn struct {
+	Count int
+	Label string `json:"label"`
+}
+type EmbPtr struct {
+	*EmbIn
+	Name string
+}
+type CaseIn struct {
+	Name  string
+	Alias string `json:"name"`
+	ID    int    `json:"ID"`
+	Id    int    `json:"id"`
+}
+type EmbCase struct {
+	*CaseIn
+	N int
+}
+type EmbCaseV struct {
+	CaseIn
+	N int
+}
+
 // Rec is a recursive type.
 type Rec struct {
 	V    int
@@ -161,6 +187,7 @@ func EncLeaves() []reflect.Type {
 		reflect.TypeOf(MV{}), reflect.TypeOf(MP{}), reflect.TypeOf(TV{}), reflect.TypeOf(TP{}),
 		reflect.TypeOf(MI(0)), reflect.TypeOf(TS("")), reflect.TypeOf(TU8(0)), reflect.TypeOf(MSl(nil)),
 		reflect.TypeOf(Plain{}), reflect.TypeOf(RecP{}), reflect.TypeOf(MW{}),
+		reflect.TypeOf(EmbPtr{}), reflect.TypeOf(EmbCase{}), reflect.TypeOf(EmbCaseV{}),
 	}
 }
 
@@ -177,6 +204,7 @@ func DecLeaves() []reflect.Type {
 		TNumber, TRaw, TTime, TEmpty,
 		reflect.TypeOf(UJ{}), reflect.TypeOf(UT{}), reflect.TypeOf(UI(0)), reflect.TypeOf(UTS("")),
 		reflect.TypeOf(Plain{}), reflect.TypeOf(RecP{}),
+		reflect.TypeOf(EmbPtr{}), reflect.TypeOf(EmbCase{}), reflect.TypeOf(EmbCaseV{}),
 	}
 }
 
